@@ -4,5 +4,5 @@ EXTENDS ValueOrder, Json
 VARIABLE v
 Init == v \in Pool
 Next == UNCHANGED v
-Dump == PrintT(<<"VAL", ToJson(v)>>)
+Dump == PrintT(<<"VAL", ToJson([val |-> v, core |-> (v \in CorePool)])>>)
 =============================================================================
